@@ -214,7 +214,7 @@ impl<R: Read, W: Write, M: Matcher> FrameCompressor<R, W, M> {
         // Clearing buffers to allow re-using of the compressor
         self.state.matcher.reset(self.compression_level);
         self.state.last_huff_table = None;
-        
+        ();
         {
             self.hasher = XxHash64::with_seed(0);
         }
@@ -374,7 +374,7 @@ impl<R: Read, W: Write, M: Matcher> FrameCompressor<R, W, M> {
 
         // If the `hash` feature is enabled, then `content_checksum` is set to true in the header
         // and a 32 bit hash is written at the end of the data.
-        
+        ();
         {
             // Because we only have the data as a reader, we need to read all of it to calculate the checksum
             // Possible TODO: create a wrapper around self.uncompressed data that hashes the data as it's read?
